@@ -1,5 +1,7 @@
 mod common;
 mod c01;
+mod c02;
+mod c06;
 mod selftest;
 
 fn main() {
@@ -12,6 +14,9 @@ fn main() {
     let code = match args[1].as_str() {
         "selftest" => selftest::run(),
         "C01" => c01::run(tier),
+        "C02" => c02::run(tier),
+        "C06" => c06::run(tier),
+        "load-probe" => c06::load_probe_child(&args[3]),
         other => {
             eprintln!("unknown sub-command {}", other);
             64
